@@ -348,6 +348,13 @@ def check_aliases(ctx, rels):
                 found = stale_method_aliases(ctx.p, ci)
             except Exception:
                 found = []
+            for node_, value_eq in cached_methods(ctx.p, ci):
+                if value_eq:
+                    ctx.bad("cached-method:%s.%s" % (cname, node_.name), "%s:%d" % (rel, node_.lineno),
+                            "%s.%s is memoised with the receiver as part of the key, and objects of %s compare BY VALUE (a tuple / value-equality class): two objects that compare equal but differ in what the method reads (other curve parameters, other state) share one entry, and the second gets the first one's result"
+                            % (cname, node_.name, cname))
+                else:
+                    ctx.undecided("cached-method:%s.%s" % (cname, node_.name), "%s:%d" % (rel, node_.lineno), "%s.%s is memoised with the receiver as part of the key; whether the result depends on state that changes is not read here" % (cname, node_.name))
             for alias, meth, anc in found:
                 ctx.bad("alias-of-overridden-method:%s.%s" % (cname, alias), "%s:%d" % (rel, ci.node.lineno),
                         "%s overrides %s() but inherits the class-level alias `%s = %s` of %s, which is bound to %s.%s: %s.%s() runs the ancestor's version, not the override" % (cname, meth, alias, meth, anc.name, anc.name, meth, cname, alias))
@@ -548,4 +555,24 @@ def charset_strips(fn):
                 if len(v) > 1 and len(set(v)) > 1 and any((chr(c) if isinstance(c, int) else c).isalnum() for c in v):
                     out.append((n, ast.unparse(n)[:60]))
                     break
+    return out
+
+
+def cached_methods(program, cls):
+    """[(method node, why)]: lru_cache / cache on an INSTANCE method: the receiver is part of the key by ITS equality, and the entry
+    outlives the object.  Where objects of the class compare by value (a tuple / str / int subclass, a class with __eq__) two objects
+    that compare equal but differ in what the method reads share one entry."""
+    out = []
+    value_eq = None
+    for m in cls.methods.values():
+        n = m.node
+        if not isinstance(n, (ast.FunctionDef, ast.AsyncFunctionDef)) or not n.args.args or n.args.args[0].arg != "self":
+            continue
+        decs = [ast.unparse(d.func if isinstance(d, ast.Call) else d).split(".")[-1] for d in n.decorator_list]
+        if not any(d in ("lru_cache", "cache", "memoize", "memoized", "cached") for d in decs):
+            continue
+        if value_eq is None:
+            mro = program.mro(cls)
+            value_eq = any("__eq__" in k.methods for k in mro) or any(b.split("[")[0].split(".")[-1] in ("tuple", "str", "int", "bytes", "frozenset", "Tuple", "NamedTuple") for k in mro for b in k.ext_bases)
+        out.append((n, value_eq))
     return out
